@@ -179,16 +179,21 @@ add("C10",
     "Lean 4 proof (partial: twin equalities for comparison and adaptation) + direct C-vs-Python differential execution on all layers + odd-input programs", "6/C10")
 add("C11",
     "PARTIAL. Proved: ZI.Own.check_sound (a lookup function accepted by the ownership check never reads or writes through a pointer to a freed object, for EVERY "
-    "behaviour of the environment at every callback point — other threads under the GIL or re-entrant code may clear and refill every cache field) and "
-    "ZI.Detach.check_sound (a function accepted by the fetch/callback/store check never stores an answer older than the live cache into it, whatever "
-    "invalidations happen during callbacks and whichever moment of a callback its answer reflects). The IR terms of _lookup, _lookupAll, _subscriptions, _verify "
-    "and the iteration mode of the loops run by changed() are REGENERATED from the current C / Python sources on every run (tools/cextract.py, fails closed) and "
-    "Lean decides the eight obligations. Runtime tie: seven re-entrancy scenarios x two flavours x up to seven entry points x both twins on the real code "
-    "(stray write via the dict free list, stale answer, leak, lazy required, mutating __providedBy__, re-entered changed()); thorough adds a thread stress.",
+    "behaviour of the environment at every callback point — other threads under the GIL or re-entrant code may clear and refill every cache field); "
+    "ZI.Own.C11_balanced / checkL_balanced (ZI/OwnLeak.lean: along EVERY execution path of an accepted function, references acquired minus references released "
+    "equals what is handed to the caller — nothing is leaked on any error branch, nothing released twice, the caller's references are never released, what is "
+    "returned is a new reference; checkL_imp_check: the ledger check implies the memory-safety check); ZI.Detach.check_sound (no answer older than the live cache "
+    "is ever stored into it, whatever invalidations happen during callbacks); ZI.Mutator.wipes_sound (no lookup running at a hook of a mutator leaves an answer "
+    "that the rest of the mutator outdates). The IR terms of _subcache, _getcache, _lookup, _lookup1, _lookupAll, _subscriptions, _verify, the iteration mode of the "
+    "loops run by changed() and the step IR of the twelve registry mutators are REGENERATED from the current C / Python sources on every run (tools/cextract.py, "
+    "fails closed) and Lean decides the twelve obligations. Runtime tie: thirteen re-entrancy scenario families x two flavours x up to seven entry points x both "
+    "twins on the real code (stray write via the dict free list, stale answer, ancestor re-based in flight, leaks, lazy required, mutating __providedBy__, "
+    "Python-level __hash__ / __bool__ of the keys, storage hooks mid-walk, mutators interrupted at every storage access); thorough adds a thread stress.",
     "stated_not_proved: C11_atomic at step granularity. Not modelled: preemption inside Python bytecode of the pure-Python twin finer than callbacks, free-threaded "
-    "builds, allocator behaviour beyond the dict free list, leaks invisible to reference counts. The translator's table of which C-API calls return borrowed / new "
-    "references and which may run Python code is trusted.",
-    "Lean 4 proof (soundness of two static checks) + translation of the C / Python sources into the checked IR each run + re-entrancy injection on the real code", "6/C11",
+    "builds, allocator behaviour beyond the dict free list. _adapter_hook is not translated (covered by the scenarios). The translator's table of which C-API calls "
+    "return borrowed / new references and which may run Python code is trusted (dictionary probes, PyObject_IsTrue and rich comparisons ARE callback points since "
+    "the repair of fdd60f1).",
+    "Lean 4 proof (soundness of three static checks: ownership, reference ledger, detachment; mutator wipes) + translation of the C / Python sources into the checked IRs each run + re-entrancy injection on the real code", "6/C11",
     engine="lean4+translation")
 # --- entries revised after the walk theorems were re-proved on the registry model that the correspondence validates
 add("C04",
